@@ -282,3 +282,58 @@ def check_effect_writes(ctx, led, v, prefix="C18", only=None):
                 "accessor %s reaches a state-changing construct (%s): %s" % (a, e.kind, e.what),
             )
     return n
+
+
+def check_foreign_attr_writes(ctx, led, rule="C18.frozen", attrs=None):
+    """An object of a CVSSn class is a value fixed by its constructor: outside the class's own
+    `self` methods nothing in the package may assign its attributes.  Finds `x.attr = ...` /
+    `setattr(x, ...)` / augmented stores where x is a local bound to a call of CVSSn(...) / `cls(...)`
+    inside a classmethod of such a class (from_rh_vector sets `.vector` to the Red Hat string →
+    as_json() echoes it as vectorString).  `attrs` restricts the report to some attribute names."""
+    n = 0
+    cvss_classes = set(c for m in ctx.repo.modules.values() for c in m.classes.values() if c.name in ("CVSS2", "CVSS3", "CVSS4"))
+    for m in ctx.repo.modules.values():
+        for f in m.all_functions():
+            first = f.params[0] if (f.cls is not None and f.params and not f.is_staticmethod) else None
+            made = {}
+            for x in ast.walk(f.node):
+                if isinstance(x, ast.Assign) and len(x.targets) == 1 and isinstance(x.targets[0], ast.Name) and isinstance(x.value, ast.Call):
+                    fn = x.value.func
+                    cls = None
+                    if isinstance(fn, ast.Name):
+                        if f.is_classmethod and first is not None and fn.id == first and f.cls in cvss_classes:
+                            cls = f.cls.name
+                        else:
+                            r = ctx.repo.resolve_global(m, fn.id)
+                            if r and r[0] == "class" and r[1] in cvss_classes:
+                                cls = r[1].name
+                    elif isinstance(fn, ast.Attribute) and fn.attr == "from_rh_vector":
+                        cls = "CVSS"
+                    if cls:
+                        made[x.targets[0].id] = cls
+            if not made:
+                continue
+            for x in ast.walk(f.node):
+                tgt = None
+                if isinstance(x, ast.Attribute) and isinstance(x.ctx, (ast.Store, ast.Del)) and isinstance(x.value, ast.Name):
+                    tgt = (x.value.id, x.attr)
+                elif isinstance(x, ast.Call) and isinstance(x.func, ast.Name) and x.func.id in ("setattr", "delattr") and x.args and isinstance(x.args[0], ast.Name):
+                    tgt = (x.args[0].id, x.args[1].value if len(x.args) > 1 and isinstance(x.args[1], ast.Constant) else "?")
+                if tgt is None or tgt[0] not in made or tgt[0] == first and not f.is_classmethod:
+                    continue
+                n += 1
+                if attrs is not None and tgt[1] not in attrs and tgt[1] != "?":
+                    continue
+                st = x
+                while not isinstance(st, ast.stmt):
+                    st = m.parent(st)
+                led.violation(
+                    rule,
+                    "%s::%s" % (f.qualname, short(st)),
+                    m.where(x),
+                    "the %s object constructed here is modified afterwards (attribute %s): what its accessors report is no longer a "
+                    "function of the string it was constructed from" % (made[tgt[0]], tgt[1]),
+                )
+    if n == 0:
+        led.ok(rule, "package-wide", "cvss/", "no function assigns attributes of a CVSS object it did not receive as self")
+    return n
